@@ -14,7 +14,7 @@ import (
 
 func init() {
 	register("C07", checkC07,
-		"Protocol clauses of C07 decided statically (general race freedom of the reflection-heavy code is NOT decided): (cache) in the schema parser every *Schema taken from the shared cache is returned only after a receive from its initialized channel, the schema under construction is published only with LoadOrStore after `defer close(initialized)` was registered, and the non-waiting accessor getOrParse is called only from relation/embedded-field parsing; (foreign-map) every write to another schema's Relationships.Relations map holds that schema's Relationships.Mux; (globals) no package-level variable of the 8 packages is stored to outside package initialisation unless it has a sync/atomic type; (callbacks) the compiled callback list and registration records are written only by registration/compilation code, never on the execution path; (immutability) the C06 rules recv/merge-alias/build-pure (a write into memory shared by all chains of a handle is a data race as soon as two goroutines use it); (pool) scanIntoStruct returns each pooled scan value exactly once per row on every path and never touches it afterwards; (stmt-cache) the C14 lock rules. NOT decided: absence of data races in general (e.g. cross-schema field writes during relation guessing), equality with a serial run, lost updates.")
+		"Protocol clauses of C07 decided statically (general race freedom of the reflection-heavy code is NOT decided): (cache) in the schema parser every *Schema taken from the shared cache is returned only after a receive from its initialized channel, the schema under construction is published only with LoadOrStore after `defer close(initialized)` was registered, and the non-waiting accessor getOrParse is called only from relation/embedded-field parsing; (foreign-map) every write to another schema's Relationships.Relations map holds that schema's Relationships.Mux; (globals) no package-level variable of the 8 packages is stored to outside package initialisation unless it has a sync/atomic type; (callbacks) the compiled callback list and registration records are written only by registration/compilation code, never on the execution path; (immutability) the C06 rules recv/clone/merge-alias/build-pure (a write into memory shared by all chains of a handle is a data race as soon as two goroutines use it); (pool) scanIntoStruct returns each pooled scan value exactly once per row on every path and never touches it afterwards; (stmt-cache) the C14 lock rules. NOT decided: absence of data races in general (e.g. cross-schema field writes during relation guessing), equality with a serial run, lost updates.")
 }
 
 func checkC07(c *Ctx) {
@@ -25,6 +25,7 @@ func checkC07(c *Ctx) {
 	checkC07Globals(c)
 	checkC07Callbacks(c)
 	checkC06Recv(c, c.Rule("C07.immutability-recv", "exported *DB methods never write through their receiver (shared by all goroutines using the handle)", 55))
+	checkC06Clone(c, c.Rule("C07.immutability-clone", "Statement.clone gives every derived chain its own copy of the per-chain maps and in-place-extended slices (two goroutines deriving from one handle never share a backing array)", 20), nil)
 	checkC06MergeAlias(c, c.Rule("C07.immutability-merge", "MergeClause never appends onto / stores into a slice shared with the handle's clause", 16))
 	checkC06BuildPure(c, c.Rule("C07.immutability-build", "Build/NegationBuild/buildExprs never store into slices shared with the handle's clauses", 30))
 	checkC07Pool(c)
